@@ -32,6 +32,16 @@ theorem chanPush_Mono (cfg : Cfg) (w : World) (f c : Nat) (x : Val) (ch : Bool) 
       · rw [if_neg hlen]; exact Mono.of_fibers rfl
     | some r => simp only; (apply schedule_Mono'; rfl)
 
+theorem superPush_Mono (cfg : Cfg) (w : World) (c : Nat) (x : Val) : Mono w (superPush cfg w c x) := by
+  unfold superPush
+  split
+  · exact Mono.refl _
+  · cases popLive cfg.pushSkipsStale w (w.chans c).rp with
+    | mk o rest =>
+      cases o with
+      | none => exact Mono.of_fibers rfl
+      | some r => simp only; (apply schedule_Mono'; rfl)
+
 theorem chanPopWake_Mono (cfg : Cfg) (w : World) (c : Nat) (items : List Val) : Mono w (chanPopWake cfg w c items) := by
   unfold chanPopWake
   cases popLive cfg.popSkipsStale w (w.chans c).wp with
@@ -163,6 +173,7 @@ theorem step_Mono (cfg : Cfg) (w : World) (op : Op) : Mono w (step cfg w op) := 
           · exact Mono.of_fibers rfl
       · exact Mono.of_fibers rfl
   | procFlag k x => exact Mono.of_fibers rfl
+  | superPush c x => exact superPush_Mono _ _ _ _
   | thrWait f k => exact Mono.of_fibers rfl
   | thrDone k v e =>
     simp only [step, thrDone]
